@@ -53,7 +53,12 @@ class Universe(object):
         self.doms = rng.sample([b"h:ex|", b"h:a|", b"h:b|", b"h:world|"],
                                rng.choice([1, 2]) if p.get("concentrate") else rng.choice([2, 3]))
         self.subs = [b"h:www|"] + rng.sample([b"h:blog|", b"h:m|", b"h:x|"], 1)
+        if rng.random() < p.get("casing", 0.25):
+            self.subs.append(rng.choice([b"h:WWW|", b"h:Www|"]))      # NOT the www stem: only lower case is
         self.locals = [b"h:localhost|", b"h:127.0.0.1|", b"h:[::1]|"]
+        if rng.random() < p.get("casing", 0.25):
+            # hosts the rule family matches only because its patterns are compiled case-insensitively
+            self.locals += [b"h:LOCALHOST|", b"h:[2001:DB8::1]|"]
         paths = [b"p:a|", b"p:b|", b"p:c|", b"p:d|"]
         if p.get("long", 0) and rng.random() < p["long"]:
             for _ in range(rng.choice([1, 2])):
@@ -92,6 +97,14 @@ class Universe(object):
             l = self.draw_lru()
             if l not in self.lrus:
                 self.lrus.append(l)
+        # pages on a host the rule family recognises only case-insensitively
+        self.cased = None
+        up = [x for x in self.locals if x != x.lower()]
+        if up:
+            self.cased = self.schemes[0] + rng.choice(up)
+            for z in (self.cased + self.paths[0], self.cased + self.paths[1] + self.paths[0], self.cased):
+                if z not in self.lrus:
+                    self.lrus.insert(rng.randrange(len(self.lrus) + 1), z)
         # twins are siblings: both beneath the same parent, in the pool
         for x, y in self.twin_sets[:2]:
             base = rng.choice(self.schemes) + b"".join(self.draw_hosts() or [self.tlds[0]])
@@ -186,6 +199,9 @@ class Driver(object):
             a = self.u.host_prefix()
             if a not in [x for x, _ in self.rules]:
                 self.rules.append((a, rng.choice(RULES)))
+        if getattr(self.u, "cased", None) and rng.random() < 0.7 and self.u.cased not in [x for x, _ in self.rules]:
+            # a specific rule on that host: it matches there only thanks to the case-insensitive compilation
+            self.rules.append((self.u.cased, rng.choice([{"k": "path", "n": 1}, {"k": "path", "n": 2}])))
         self.ram = dict(self.rules)     # what the implementation holds in RAM
         self.weights = dict(DEFAULT_WEIGHTS)
         self.weights.update(self.profile.get("weights", {}))
